@@ -80,41 +80,6 @@ fn real_frame_kind(f: &FrameMut) -> u8 {
     }
 }
 
-//@ harness props=C05 tier=thorough level=bounded timeout=1500 bound="arbitrary input of <= 16 bytes, any first byte"
-//@ fn FrameDecoder::decode_frame
-//@ fn FrameDecoder::handle_extension_frame
-//@ fn Frame::decode_mut
-#[kani::proof]
-#[kani::unwind(19)]
-fn vq_c05_frame_decode_total() {
-    let mut bytes: [u8; 16] = kani::any();
-    let len: usize = kani::any();
-    kani::assume(len <= 16);
-    let first = bytes[0];
-    let r = DecoderBufferMut::new(&mut bytes[..len]).decode::<FrameMut>();
-    match &r {
-        Ok((frame, rest)) => {
-            // a frame occupies at least its type byte: the caller's `while !payload.is_empty()` loop terminates
-            assert!(rest.len() < len, "C05/frame.tot/ok_consumes_at_least_one_byte");
-            let kind = real_frame_kind(frame);
-            // 12.4: the frame type selects the frame; types >= 0x40 are multi-byte integers, none of which RFC 9000 defines
-            assert!(kind == 100 || (kind != 0 && kind == rfc_frame_kind(first)), "C05/frame.tot/variant_follows_rfc_type_table");
-            assert!(kind != 100 || first >= 0x40, "C05/frame.tot/extension_frames_only_behind_multi_byte_types");
-        }
-        Err(_) => {}
-    }
-    // 12.4: "An endpoint MUST treat the receipt of a frame of unknown type as a connection error"
-    assert!(len == 0 || first >= 0x40 || rfc_frame_kind(first) != 0 || r.is_err(), "C05/frame.tot/unknown_single_byte_type_rejected");
-    assert!(len != 0 || r.is_err(), "C05/frame.tot/empty_input_rejected");
-    kani::cover!(r.is_ok() && len == 16, "reach:ok_on_longest_input");
-    kani::cover!(r.is_err() && len == 16, "reach:err_on_longest_input");
-    kani::cover!(matches!(&r, Ok((Frame::Ack(_), _))), "reach:ack");
-    kani::cover!(matches!(&r, Ok((Frame::Stream(_), _))), "reach:stream");
-    kani::cover!(matches!(&r, Ok((Frame::Padding(p), _)) if p.length == 16), "reach:all_padding");
-    kani::cover!(matches!(&r, Ok((Frame::MtuProbingComplete(_), _))), "reach:extension_frame");
-    kani::cover!(true, "reach:end");
-}
-
 /// RFC 9000 section 17.2 / 17.3: what the first byte (and, for long headers, the version) says the packet is.
 /// 1 short, 2 version negotiation, 3 initial, 4 0-RTT, 5 handshake, 6 retry, 0 = must be discarded.
 fn rfc_packet_kind(first_byte: u8, version: u32) -> u8 {
@@ -143,19 +108,8 @@ fn rfc_packet_kind(first_byte: u8, version: u32) -> u8 {
 
 const DCID_LEN: usize = 4;
 
-//@ harness props=C05 tier=thorough level=bounded timeout=1500 bound="arbitrary datagram of <= 24 bytes, any first byte; short-header destination connection id length fixed to 4"
-//@ fn ProtectedPacket::decode
-//@ fn PacketDecoder::decode_packet
-//@ fn HeaderDecoder::finish_long
-//@ fn HeaderDecoderResult::split_off_packet
-//@ fn ProtectedVersionNegotiation::decode
-//@ fn ProtectedRetry::decode
-//@ fn ProtectedShort::decode
-#[kani::proof]
-#[kani::unwind(10)]
-fn vq_c05_packet_decode_total() {
+fn packet_decode_total(len: usize) -> bool {
     let mut bytes: [u8; 24] = kani::any();
-    let len: usize = kani::any();
     kani::assume(len <= 24);
     let first = bytes[0];
     let version = ((bytes[1] as u32) << 24) | ((bytes[2] as u32) << 16) | ((bytes[3] as u32) << 8) | (bytes[4] as u32);
@@ -184,13 +138,101 @@ fn vq_c05_packet_decode_total() {
         Err(_) => {}
     }
     assert!(want != 0 || r.is_err(), "C05/packet.tot/invalid_first_byte_or_truncated_header_rejected");
-    kani::cover!(matches!(&r, Ok((ProtectedPacket::Short(_), _))), "reach:short");
-    kani::cover!(matches!(&r, Ok((ProtectedPacket::VersionNegotiation(_), _))), "reach:version_negotiation");
-    kani::cover!(matches!(&r, Ok((ProtectedPacket::Initial(_), _))), "reach:initial");
-    kani::cover!(matches!(&r, Ok((ProtectedPacket::ZeroRtt(_), _))), "reach:zero_rtt");
-    kani::cover!(matches!(&r, Ok((ProtectedPacket::Handshake(_), _))), "reach:handshake");
-    kani::cover!(matches!(&r, Ok((ProtectedPacket::Retry(_), _))), "reach:retry");
-    kani::cover!(matches!(&r, Ok((ProtectedPacket::Initial(_), rest)) if !rest.is_empty()), "reach:coalesced_packet_follows");
-    kani::cover!(r.is_err() && len == 24, "reach:err_on_longest_input");
+    r.is_ok()
+}
+
+/// One decode through `FrameMut` with a literal first byte on a buffer of literal length (24 bytes: every frame
+/// type can succeed, NEW_CONNECTION_ID needs 21): with both literal, symbolic execution follows only the arm of the
+/// tag dispatch that this first byte selects (see c05_frames_fixed.rs `run_decoder` for why that matters).
+fn dispatch_one(first: u8) {
+    let mut bytes: [u8; 24] = kani::any();
+    bytes[0] = first;
+    let r = DecoderBufferMut::new(&mut bytes[..]).decode::<FrameMut>();
+    if let Ok((frame, rest)) = &r {
+        // a frame occupies at least its type byte: the caller's `while !payload.is_empty()` loop terminates
+        assert!(rest.len() < 24, "C05/frame.tot/ok_consumes_at_least_one_byte");
+        let kind = real_frame_kind(frame);
+        // 12.4 Table 3: the frame type selects the frame
+        assert!(kind != 0 && kind != 100 && kind == rfc_frame_kind(first), "C05/frame.tot/variant_follows_rfc_type_table");
+    }
+    // 12.4: "An endpoint MUST treat the receipt of a frame of unknown type as a connection error"
+    assert!(rfc_frame_kind(first) != 0 || r.is_err(), "C05/frame.tot/unknown_single_byte_type_rejected");
+}
+
+//@ harness props=C05 tier=thorough level=bounded timeout=1500 bound="every first byte 0x00..=0x3f (all single-byte frame types, defined or not) followed by 23 arbitrary bytes"
+//@ fn FrameDecoder::decode_frame
+//@ fn Frame::decode_mut
+#[kani::proof]
+#[kani::unwind(27)]
+fn vq_c05_frame_dispatch_single_byte_types() {
+    let pick: u8 = kani::any();
+    kani::assume(pick < 64);
+    // 64 calls with a literal first byte each
+    unroll!(64, t, {
+        if pick as usize == t {
+            dispatch_one(t as u8);
+        }
+    });
+    kani::cover!(pick == 0x00, "reach:padding");
+    kani::cover!(pick == 0x03, "reach:ack_ecn");
+    kani::cover!(pick == 0x1e, "reach:handshake_done");
+    kani::cover!(pick == 0x1f, "reach:first_undefined_type");
+    kani::cover!(pick == 0x31, "reach:datagram");
+    kani::cover!(pick == 0x3f, "reach:last_single_byte_type");
+    kani::cover!(true, "reach:end");
+}
+
+//@ harness props=C05 tier=thorough level=bounded timeout=1500 bound="every first byte 0x40..=0xff (multi-byte frame types) followed by 7 arbitrary bytes"
+//@ fn FrameDecoder::decode_frame
+//@ fn FrameDecoder::handle_extension_frame
+//@ fn Frame::decode_mut
+#[kani::proof]
+#[kani::unwind(11)]
+fn vq_c05_frame_dispatch_multi_byte_types() {
+    let mut bytes: [u8; 8] = kani::any();
+    kani::assume(bytes[0] >= 0x40);
+    let first = bytes[0];
+    let r = DecoderBufferMut::new(&mut bytes[..]).decode::<FrameMut>();
+    if let Ok((frame, rest)) = &r {
+        assert!(rest.len() < 8, "C05/frame.tot/ok_consumes_at_least_one_byte");
+        // RFC 9000 defines no frame type above 0x3f (RFC 9221: 0x30/0x31); what this implementation accepts behind a
+        // multi-byte type are its own private extension frames only
+        assert!(real_frame_kind(frame) == 100, "C05/frame.tot/extension_frames_only_behind_multi_byte_types");
+        assert!(first >= 0x80, "C05/frame.tot/extension_types_need_at_least_the_four_byte_form");
+    }
+    kani::cover!(matches!(&r, Ok((Frame::MtuProbingComplete(_), _))), "reach:extension_frame");
+    kani::cover!(r.is_err() && first >= 0xc0, "reach:rejected_eight_byte_type");
+    kani::cover!(true, "reach:end");
+}
+
+//@ harness props=C05 tier=thorough level=bounded timeout=1500 bound="arbitrary datagram of exactly 24 bytes, any first byte; short-header destination connection id length fixed to 4"
+//@ fn ProtectedPacket::decode
+//@ fn PacketDecoder::decode_packet
+//@ fn HeaderDecoder::finish_long
+//@ fn HeaderDecoderResult::split_off_packet
+//@ fn ProtectedVersionNegotiation::decode
+//@ fn ProtectedRetry::decode
+//@ fn ProtectedShort::decode
+#[kani::proof]
+#[kani::unwind(10)]
+fn vq_c05_packet_decode_total_24() {
+    let ok = packet_decode_total(24);
+    kani::cover!(ok, "reach:ok");
+    kani::cover!(!ok, "reach:err");
+    kani::cover!(true, "reach:end");
+}
+
+//@ harness props=C05 tier=thorough level=bounded timeout=1500 bound="arbitrary datagram of 0..=10 bytes, any first byte; short-header destination connection id length fixed to 4"
+//@ fn ProtectedPacket::decode
+//@ fn PacketDecoder::decode_packet
+#[kani::proof]
+#[kani::unwind(10)]
+fn vq_c05_packet_decode_total_short() {
+    let len: usize = kani::any();
+    kani::assume(len <= 10);
+    let ok = packet_decode_total(len);
+    kani::cover!(ok && len == 5, "reach:ok_short_header");
+    kani::cover!(!ok && len == 10, "reach:err");
+    kani::cover!(len == 0, "reach:empty_datagram");
     kani::cover!(true, "reach:end");
 }
